@@ -1,4 +1,6 @@
-// C16 extraction table: what the Frustum / FrustumTest methods COMPUTE (the Exc / non-Exc pairs are C07's).
+// C16 extraction table: what the Frustum / FrustumTest methods COMPUTE.  The `…Exc` spellings are NOT extracted here: C07 proves that each
+// pair agrees wherever the Exc copy does not throw, so what an Exc body computes is known only through C07's pair theorem plus C16's theorem
+// about the non-Exc body (ZToDepthExc / DepthToZExc: C07 compares them at three literal triples and by sampling).
 // A Frustum<T> is built inside each entry from six scalars with the constructor and a CONCRETE orthographic flag:
 // the perspective and orthographic formulas are separate textual copies, so every method is extracted for both flags
 // (`…_persp`, `…_ortho`).
